@@ -23,7 +23,7 @@ def warm(args):
     t = os.path.join(V, ".cache", "kani-%s-%d" % (crate, slot))
     with open(os.path.join(V, ".cache", "warm-%s-%d.log" % (crate, slot)), "w") as f:
         return subprocess.run(["cargo", "kani", "-Z", "stubbing", "--only-codegen", "--target-dir", t], cwd=d, env=env, stdout=f, stderr=subprocess.STDOUT).returncode
-jobs = [(c, sl) for c in ("ser", "bq") for sl in range(6)]
+jobs = [("ser", sl) for sl in range(6)] + [("bq", sl) for sl in range(12)] + [("td", sl) for sl in range(6)]
 with concurrent.futures.ThreadPoolExecutor(6) as ex:
     rcs = list(ex.map(warm, jobs))
 # (a failed warm-up is not fatal: the checks build what they need)
